@@ -65,4 +65,6 @@ pub fn run(ctx: &mut Ctx) {
         }
     }
     if unparsed_ref * 50 > n as u64 { ctx.notes.push(format!("WARNING: {unparsed_ref} of {n} reference renderings did not parse")); ctx.oracle_fail("the reference renderer / grammar disagree on too many statements (machinery fault)", serde_json::json!({"class": "machinery", "count": unparsed_ref})); }
+    // the convenience methods of the builders build what their general forms build (clauses given through them are carried too)
+    crate::api::run(ctx);
 }
